@@ -144,8 +144,9 @@ class NestedGraph(Graph):
             super(NestedGraph, self).set_node_style(state_name, style)
 
     def set_previous_transition(self, src, dst):
-        self.custom_styles["edge"][src][dst] = "previous"
-        self.set_node_style(src, "previous")
+        src_name = self._get_global_name(src.split(self.machine.state_cls.separator))
+        dst_name = self._get_global_name(dst.split(self.machine.state_cls.separator))
+        super(NestedGraph, self).set_previous_transition(src_name, dst_name)
 
     def _add_nodes(self, states, container):
         self._add_nested_nodes(states, container, prefix="", default_style="default")
